@@ -235,3 +235,41 @@ pub const MAX_FOCI: usize = 12;
 pub fn foci() -> Vec<(Focus, String)> {
     new_foci().into_iter().take(MAX_FOCI).collect()
 }
+
+thread_local! {
+    static LARGE_LEFT: Cell<u32> = const { Cell::new(2) };
+    static BYTES_LEFT: Cell<usize> = const { Cell::new(300_000) };
+}
+
+/// called at the start of every generated case: allows two big counts and 300 000 bytes of long strings again
+/// (a case of several megabytes costs the model minutes: its parser is quadratic in places)
+pub fn reset_large() {
+    LARGE_LEFT.with(|l| l.set(2));
+    BYTES_LEFT.with(|l| l.set(300_000));
+}
+
+pub fn take_large() -> bool {
+    LARGE_LEFT.with(|l| {
+        if l.get() > 0 {
+            l.set(l.get() - 1);
+            true
+        } else {
+            false
+        }
+    })
+}
+
+/// may a string of n bytes (n > 256) still be generated in this case?
+pub fn take_bytes(n: usize) -> bool {
+    if n <= 256 {
+        return true;
+    }
+    BYTES_LEFT.with(|l| {
+        if l.get() >= n {
+            l.set(l.get() - n);
+            true
+        } else {
+            false
+        }
+    })
+}
